@@ -27,6 +27,10 @@ def special_programs(rng):
                     % (n, tag, rng.choice([2000, 20000, 60000]), tag, rng.randrange(0, 200))))
     out.append(("assert-fail", "fn main() -> int {\n    (println \"before the failure\")\n    assert (== 1 2)\n    (println \"never\")\n    return 0\n}\nshadow main { assert (== 1 1) }\n"))
     out.append(("oob", "fn main() -> int {\n    let a: array<int> = [1, 2, 3]\n    (println \"before\")\n    (println (at a 9))\n    return 0\n}\nshadow main { assert (== 1 1) }\n"))
+    # output that does not end in a newline when the program stops - normally, by a failed assertion, by an out-of-range index
+    out.append(("unterminated-then-exit", "fn main() -> int {\n    (println \"start\")\n    (print \"no newline at the end\")\n    return 4\n}\nshadow main { assert (== 1 1) }\n"))
+    out.append(("unterminated-then-assert", "fn main() -> int {\n    (println \"start\")\n    (print \"element 7 is ... \")\n    assert (== 1 2)\n    return 0\n}\nshadow main { assert (== 1 1) }\n"))
+    out.append(("unterminated-then-oob", "fn main() -> int {\n    let a: array<int> = [1, 2, 3]\n    (print \"a\")\n    (print \"b \")\n    (println (at a 9))\n    return 0\n}\nshadow main { assert (== 1 1) }\n"))
     out.append(("long-lines", "fn main() -> int {\n    let mut s: string = \"\"\n    let mut i: int = 0\n    while (< i 3000) {\n        set s (+ s \"0123456789\")\n        set i (+ i 1)\n    }\n    (println s)\n    (println (str_length s))\n    (print s)\n    (println \"tail\")\n    return 3\n}\nshadow main { assert (== 1 1) }\n"))
     for depth in (500, 4000):
         out.append(("nested-value-%d" % depth,
